@@ -29,5 +29,9 @@ CLAIMED = {
                 text="TLC checks the order laws (strict total order of the hash-tiebreak ordering, LWW = HASH on distinct clocks, clock comparison antisymmetric/transitive, respect of clock time, FWW = -LWW, Sort is an ordered permutation) on the transcribed comparators over the complete cube of (time, id, hash) rank triples; the real functions are then evaluated on concrete entries order-isomorphic to every triple of rank triples (several palettes of boundary and negative values) and TLC validates the observed sign table against the same laws (Layer P) and against the transcription (Layer M); sorting.Sort likewise, incl. insertion-sort tie behaviour",
                 note="complete cube for K=3 (27^3 triples) plus K=2 cubes for 13 concrete value palettes; lists up to 12 elements; concrete values are samples of each rank class",
                 technique="TLA+ spec Sorting.tla (laws over LogOps comparators) model-checked by TLC; observed comparison/sort tables of the real functions validated by TLC against Trace_Sorting.tla"),
+    "C20": dict(level="model_checking",
+                text="TLC explores every history of create/get/has/evict/restart/create-identity over several keystore instances sharing one datastore in Keystore.tla (cache abstracted to 'anything may be evicted'); every history is replayed on real Keystore instances over one datastore (eviction realised through the real LRU, restart by a new instance) and TLC validates each observed call against the property predicates with the driver's ground truth of which ids exist and which key/identity fingerprints they had; deep seeded simulations with 3 instances and 4 ids",
+                note="ids created at most once; LRU capacity 128 exercised through filler keys; secp256k1 signatures (RFC 6979 deterministic) trusted",
+                technique="TLA+ spec Keystore.tla model-checked by TLC; TLC-generated histories replayed on real keystores; observed traces validated by TLC against Trace_Keystore.tla"),
     "C16": dict(level="model_checking", text=_L_TEXT + "; every size bound 0..beyond the merged size", note=_L_NOTE, technique=_L_TECH),
 }
